@@ -201,7 +201,8 @@ def run(chk, w):
                 continue
             ent_name = P.di_name(et["base"]).replace("const ", "")
             members = P.di_members(et["base"]) or []
-            reads, whole = results.entity_field_reads(P, f, c)
+            sites = {}
+            reads, whole = results.entity_field_reads(P, f, c, sites)
             read_names = set()
             for ch in reads:
                 for k in range(len(ch)):
@@ -224,7 +225,36 @@ def run(chk, w):
             copied_all = any(len(ch) >= 1 and ch[-1].endswith(".data") for ch in whole)
             ncopy += 1
             missing = [x for x in want if x not in read_names]
-            if copied_all or not missing:
+            skipped = None
+            if not missing and not copied_all:
+                # must-read: once the entity was found, no path to the return skips the read of a copied field (an early return on
+                # another field of the entity makes the single getter disagree with the snapshot)
+                found_edges = []
+                for b in f.blocks:
+                    t = b.term
+                    if t.op == "br" and "cond" in t.d:
+                        cnd = f.resolve(t["cond"])
+                        if cnd is not None and cnd.op == "icmp" and cnd["pred"] in ("eq", "ne") and cnd["b"].get("k") == "null":
+                            o = rules.resolve_local(f, cnd["a"])
+                            oi = f.resolve(o)
+                            if oi is not None and oi.id == c.id:
+                                found_edges.append(t["t"] if cnd["pred"] == "ne" else t["f"])
+                for fe in found_edges:
+                    start = f.bmap[fe].insts[0]
+                    for x in want:
+                        ids = {i.id for i in sites.get(x, [])}
+                        if not ids:
+                            continue
+                        pth = rules.exists_path(f, start, "exit", lambda y, ids=ids: y.id in ids, include_start=True)
+                        if pth:
+                            skipped = (x, pth)
+                            break
+                    if skipped:
+                        break
+            if skipped:
+                chk.violation("C17-COPY", f.name, "%s:%s:skipped" % (ent_name, skipped[0].split(".")[-1]), c.loc(),
+                              "%s can return for a known %s without reading %s (%s): on that path the result differs from the whole-track snapshot" % (f.name, ent_name, skipped[0], rules.path_text(skipped[1])))
+            elif copied_all or not missing:
                 chk.ok("C17-COPY", 1, {"getter": f.name, "entity": ent_name, "fields": len(want)})
             else:
                 chk.violation("C17-COPY", f.name, "%s:%s" % (ent_name, ",".join(m.split(".")[-1] for m in missing)), c.loc(),
